@@ -26,6 +26,10 @@ class UserError(Exception):
     pass
 
 
+class FatalError(BaseException):
+    """a failure value that is not an Exception (like SystemExit, KeyboardInterrupt, GeneratorExit)"""
+
+
 # -- the Twisted log observer ("not logged as unhandled") ------------------------------------------
 _unhandled = []
 _logging_begun = False
@@ -105,8 +109,9 @@ class Ctx:
         self.vals = {"None": None, "zero": 0, "one": 1, "two": 2, "nest": [("a", None), [1]]}
         self.inners = []  # inner Deferreds returned by "chain" callbacks
         # unique texts: a log entry is attributed to this behaviour by text, never by object
-        self.tags = {"e1": "e1#%d" % _serial[0], "e2": "e2#%d" % _serial[0]}
-        self.excs = {"e1": ValueError(self.tags["e1"]), "e2": UserError(self.tags["e2"])}
+        self.tags = {k: "%s#%d" % (k, _serial[0]) for k in ("e1", "e2", "b1", "b2")}
+        self.excs = {"e1": ValueError(self.tags["e1"]), "e2": UserError(self.tags["e2"]),
+                     "b1": SystemExit(self.tags["b1"]), "b2": FatalError(self.tags["b2"])}  # fmt: skip
         self.seen = []
 
     def value_matches(self, pat, x):
@@ -195,7 +200,7 @@ def _replay(hist):
             d.callback(ctx.vals[arg[0]])
         elif a == "fail":
             # e1: a bare exception instance; e2: really raised, so the Failure carries a traceback
-            d.errback(ctx.excs["e1"] if arg[0] == "e1" else _raise_failure(ctx.excs["e2"]))
+            d.errback(ctx.excs["e1"] if arg[0] == "e1" else _raise_failure(ctx.excs[arg[0]]))
         elif a == "add":
             if arg == "pass":
                 d.addBoth(lambda r, s=ctx.seen: (s.append(("pass", r)), r)[1])
@@ -218,7 +223,7 @@ def _replay(hist):
         elif a == "fireinner":
             ctx.inners[-1].callback(ctx.vals[arg[0]])
         elif a == "failinner":
-            ctx.inners[-1].errback(ctx.excs["e1"] if arg[0] == "e1" else _raise_failure(ctx.excs["e2"]))
+            ctx.inners[-1].errback(ctx.excs["e1"] if arg[0] == "e1" else _raise_failure(ctx.excs[arg[0]]))
         elif a == "match":
             m, calls = make_matcher(ctx, arg)
             try:
@@ -259,7 +264,9 @@ def _replay(hist):
             except DeferredNotFired:
                 ok = h["res"] == {"r": "raises", "val": ["DeferredNotFired"]}
                 obs = "raises DeferredNotFired"
-            except Exception as ex:
+            except BaseException as ex:
+                if not isinstance(ex, Exception) and not any(ex is o for o in ctx.excs.values()):
+                    raise  # not a failure value of this behaviour (a real Ctrl-C)
                 ok = h["res"]["r"] == "raises" and h["res"]["val"][0] in ctx.excs and ex is ctx.excs[h["res"]["val"][0]]
                 obs = "raises %r" % (ex,)
             if not ok:
@@ -347,6 +354,12 @@ def _exc_info(exc):
         return sys.exc_info()
 
 
+def _failure_of(exc):
+    from twisted.python.failure import Failure
+
+    return Failure(exc)
+
+
 def _unit_exception(case, where, b):
     """Constructor of what unit `where` raises / fails its Deferred with, or None."""
     from testtools.runtest import MultipleExceptions
@@ -375,6 +388,9 @@ def _unit_exception(case, where, b):
         "xfail": lambda: _ExpectedFailure(_exc_info(RuntimeError(msg))),
         "uxs": lambda: _UnexpectedSuccess(),
         "multi": lambda: MultipleExceptions(_exc_info(RuntimeError(msg)), _exc_info(case.failureException(msg))),
+        "first_fail": lambda: defer.FirstError(_failure_of(case.failureException(msg)), 0),
+        "first_skip": lambda: defer.FirstError(_failure_of(case.skipException("skip in " + where)), 0),
+        "first_err": lambda: defer.FirstError(_failure_of(RuntimeError(msg)), 0),
         "ki": lambda: ours(KeyboardInterrupt()),
         "exit": lambda: ours(SystemExit(3)),
     }.get(b)
